@@ -194,7 +194,7 @@ func Version(version string) OptionFn {
 // registered to all incoming connections.
 func ExtendTypes(fn func(*pgtype.Map)) OptionFn {
 	return func(srv *Server) error {
-		fn(srv.types)
+		srv.typeExtensions = append(srv.typeExtensions, fn)
 		return nil
 	}
 }
